@@ -102,6 +102,15 @@ class C03:
         """left-overs of an earlier environment / foreign content in the env roots"""
         extra = []
         for root in [b"env", b"env.build", b"env.launch"]:
+            if rng.random() < 0.1:
+                # the env root is a symbolic link to a directory (of the layer, or the sibling env root): writing the
+                # environment replaces the LINK; what it points to keeps its files
+                if not any(e["p"] == LAYER + [b(b"shared")] for e in extra):
+                    extra.append({"p": LAYER + [b(b"shared")], "k": "d", "m": 0o755})
+                    extra.append({"p": LAYER + [b(b"shared"), b(b"KEEP.txt")], "k": "f", "m": 0o644, "c": [6]})
+                    extra.append({"p": LAYER + [b(b"shared"), b(b"X.override")], "k": "f", "m": 0o644, "c": b(b"shared-x")})
+                extra.append({"p": LAYER + [b(root)], "k": "l", "t": b(rng.choice([b"shared", b"shared", b"/r/sibling/env"]) if root != b"env" else b"shared")})      # (targets that exist)
+                continue
             if rng.random() < 0.5:
                 extra.append({"p": LAYER + [b(root)], "k": "d", "m": 0o755})
                 used = set()
@@ -128,6 +137,9 @@ class C03:
             names = sorted({bytes(i["n"]) for i in old + new}) or [b"A"]
             steps = []
             r = rng.random()
+            stray = self.stray(rng)
+            if any(e["k"] == "l" and len(e["p"]) == len(LAYER) + 1 for e in stray):
+                r = 0.0       # (a linked env root is judged by what writing does; reading back and re-writing is about real directories)
             if r < 0.5:
                 steps = [{"op": "write", "ins": old}, {"op": "write", "ins": new}, {"op": "read", "probes": self.probes(names)}]
             elif r < 0.8:
@@ -135,7 +147,7 @@ class C03:
                          {"op": "read", "probes": self.probes(names)[:5]}]
             else:
                 steps = [{"op": "read", "probes": self.probes(names)}, {"op": "write", "ins": new}]
-            cases.append({"init": self.base_tree(self.stray(rng)), "dir": LAYER, "steps": steps})
+            cases.append({"init": self.base_tree(stray), "dir": LAYER, "steps": steps})
         # spec-shaped directories for the read side
         for _ in range(n // 3):
             extra = []
